@@ -6,6 +6,8 @@ mod robs_deque;
 mod robs_list;
 mod robs_vec;
 mod rng;
+mod robs_map;
+mod robs_set;
 mod transport;
 
 use std::io::Write;
@@ -79,6 +81,8 @@ fn main() {
         "robs_deque" => robs_deque::run(seed, count, &extra, &mut out),
         "robs_list" => robs_list::run(seed, count, &extra, &mut out),
         "robs_vec" => robs_vec::run(seed, count, &extra, &mut out),
+        "robs_map" => robs_map::run(seed, count, &extra, &mut out),
+        "robs_set" => robs_set::run(seed, count, &extra, &mut out),
         _ => {
             eprintln!("unknown component {comp}");
             std::process::exit(2);
